@@ -88,11 +88,15 @@ class Opaque:
     def __init__(self, what): self.what = what
 
 
-SPEC_UFS = {'Fstate', 'Fnext', 'Fout', 'depth', 'dom', 'cidx', 'kidx', 'pidx', 'nearest'}
+SPEC_UFS = {'Fstate', 'Fnext', 'Fout', 'depth', 'dom', 'cidx', 'kidx', 'pidx', 'nearest', 'wireof'}
 SPEC_PREDS = {'dep', 'propagatable', 'clockable'}
-LIST_ATTRS = {'inPorts', 'outPorts', 'inOutPorts', 'sinks', 'sources', 'propagatables', 'clockables', 'listeners',
-              'prepared', 'wires', 'data', 'ports', 'sourceToSink', 'sinkToSource'}
-DICT_ATTRS = {'children', '_wires', 'clockDrivers', 'parameters'}
+
+
+def items_of(ex, st, ref):
+    return ListH(ref, '#items')
+LIST_ATTRS = {'uniqueWires', 'inPorts', 'outPorts', 'inOutPorts', 'sinks', 'sources', 'propagatables', 'clockables', 'listeners',
+              'prepared', 'wires', 'ports', 'sourceToSink', 'sinkToSource'}
+DICT_ATTRS = {'children', '_wires', 'clockDrivers', 'parameters', 'data'}
 NONE = ir.const(0)
 
 
@@ -102,7 +106,7 @@ class HeapExec(symexec.Executor):
         self.contracts = contracts or {}        # method / function name -> HContract
         self.list_attrs = set(LIST_ATTRS) | set(list_attrs or ())
         self.dict_attrs = set(DICT_ATTRS) | set(dict_attrs or ())
-        self.classes = set(classes or ()) | {'Wire', 'Logic', 'Exception', 'BidirWire', 'HWSystem', 'Simulator', 'ClockDriverSimulator', 'str', 'int'}
+        self.classes = set(classes or ()) | {'Wire', 'Logic', 'Exception', 'BidirWire', 'HWSystem', 'Simulator', 'ClockDriverSimulator', 'str', 'int', 'FieldInspector', 'ValueFormatter', 'Waveform', 'InPort', 'OutPort'}
         self.ghost = ghost or {}
         self.written = set()                    # map names written (for frame obligations)
 
@@ -292,6 +296,8 @@ class HeapExec(symexec.Executor):
                 return Opaque(nm)
             if nm in self.ghost:
                 return self.ghost[nm](self, st, *[self.ev(a, st) for a in n.args])
+            if nm == 'items':
+                return ListH(ir.as_int(self.ev(n.args[0], st)), '#items')
             if nm == 'epoch':
                 return self.read_field(st, NONE, '#epoch')      # ghost: identifies the current wire-value map
             if nm in SPEC_UFS:
@@ -328,6 +334,9 @@ class HeapExec(symexec.Executor):
                 key = 'm:' + meth
                 if key in self.contracts:
                     return self.apply_contract(self.contracts[key], base, args, st, n)
+                if meth == 'append' and len(args) == 1:
+                    # a list object held in a dict / field: the reference itself owns the element map '#items'
+                    return self.list_method(ListH(base, '#items'), 'append', args, st, n)
                 raise Unsupported('method %s on a reference has no contract (line %s)' % (meth, n.lineno))
         raise Unsupported('call form (line %s)' % n.lineno)
 
@@ -528,6 +537,7 @@ class HeapExec(symexec.Executor):
                         b = n.func.value
                         if isinstance(b, ast.Attribute): maps.update(['el:' + b.attr, 'len:' + b.attr])
                         elif isinstance(b, ast.Name): maps.add('@local:' + b.id)
+                        else: maps.update(['el:#items', 'len:#items'])
                     c = self.contracts.get('m:' + m)
                     if c is not None: maps.update(c.modifies)
                     if isinstance(n.func.value, ast.Name):
